@@ -244,9 +244,28 @@ Definition text_ok (s : string) : bool := str_all plain_char s && edge_ok s.    
 Definition mark_ok (s : string) : bool := text_ok s && str_nonempty s.
 Definition type_char (a : ascii) : bool :=
   negb (Ascii.eqb a "#") && negb (Ascii.eqb a ":") && negb (Ascii.eqb a "=").
-Definition type_ok (s : string) : bool := str_all type_char s && edge_ok s && str_nonempty s.
-Definition value_char (a : ascii) : bool := negb (Ascii.eqb a "#").
-Definition value_ok (s : string) : bool := str_all value_char s && edge_ok s && str_nonempty s.
+(* the state (quote, skip) in which _split_at_comment leaves a text; None: it found a comment in it *)
+Fixpoint end_state (step : option ascii -> ascii -> sstep) (s : string) (quote : option ascii) (skip : bool)
+  : option (option ascii * bool) :=
+  match s with
+  | EmptyString => Some (quote, skip)
+  | String c r =>
+      if skip then end_state step r quote false
+      else match step quote c with
+           | SReturn => None
+           | SSkipNext => end_state step r quote true
+           | SQuote q => end_state step r q false
+           | SKeep => end_state step r quote false
+           end
+  end.
+(* every '#' of the text is inside a string literal, and every string literal of the text is closed *)
+Definition closed (s : string) : bool :=
+  match end_state split_step_gen s None false with Some (None, false) => true | _ => false end.
+
+(* annotation text: no '#', ':', '=' at all; string literals (forward references) closed *)
+Definition type_ok (s : string) : bool := str_all type_char s && edge_ok s && str_nonempty s && closed s.
+(* default-value text: ANY Python text whose '#' characters are inside (closed) string literals *)
+Definition value_ok (s : string) : bool := edge_ok s && str_nonempty s && closed s.
 
 Definition dstr_ok (d : dstr) : bool :=
   match d with
@@ -264,7 +283,7 @@ Definition fld_ok (f : fld) : bool :=
 (* the scanner instance the lemmas are about; Gen/FactsDoc.v must regenerate exactly these literals *)
 Definition cS : ascii := "'"%char.
 Definition cD : ascii := """"%char.
-Definition vw : string -> lview := view "#" ":" "=" (tok3 cS) (tok3 cD).
+Definition vw : string -> lview := view "#" ":" "=" (tok3 cS) (tok3 cD) split_step_gen.
 Definition cdef : string -> bool := contains_def "#" ":" "=".
 
 Lemma bridge_view : view_gen = vw.
@@ -321,7 +340,7 @@ Ltac nochar :=
         | rewrite has_char_app; apply orb_false_iff; split; nochar ].
 
 (* ---------- blank line ---------- *)
-Lemma view_blank : vw "" = mkview false None false true false "" None None None "".
+Lemma view_blank : vw "" = mkview false None false true false "" "" None None None "".
 Proof. reflexivity. Qed.
 
 (* ---------- comment line ---------- *)
@@ -364,14 +383,15 @@ End CommentLine.
 Definition eq_part (b : option string) : string := match b with Some x => String "=" x | None => "" end.
 Definition hash_part (c : option string) : string := match c with Some x => String "#" x | None => "" end.
 
-(* name ':' A ['=' B] ['#' C] with A free of '#', ':', '=' and B free of '#' is a field definition *)
+(* name ':' A ['=' B] ['#' C] with A free of '#', ':', '=' is a field definition, whatever B and C contain
+   (_contains_field_definition still cuts the line at the FIRST '#', inside a string literal or not) *)
 Lemma cdef_general ind name A B C :
   str_all is_space ind = true -> is_ident name = true ->
   has_char "#" A = false -> has_char ":" A = false -> has_char "=" A = false ->
-  match B with Some b => has_char "#" b = false | None => True end ->
   cdef (ind ++ name ++ String ":" (A ++ eq_part B ++ hash_part C)) = true.
 Proof.
-  intros Hind Hname HA1 HA2 HA3 HB.
+  intros Hind Hname HA1 HA2 HA3.
+  set (B0 := match B with Some b => Some (before_char "#" (b ++ hash_part C)) | None => None end).
   assert (Hi1 : has_char "#" ind = false) by (now apply spaces_no).
   assert (Hi2 : has_char ":" ind = false) by (now apply spaces_no).
   assert (Hi3 : has_char "=" ind = false) by (now apply spaces_no).
@@ -380,14 +400,14 @@ Proof.
   assert (Hn3 : has_char "=" name = false) by (now apply is_ident_no).
   (* the line up to the comment *)
   assert (E1 : before_char "#" (ind ++ name ++ String ":" (A ++ eq_part B ++ hash_part C))
-               = ind ++ name ++ String ":" (A ++ eq_part B)).
+               = ind ++ name ++ String ":" (A ++ eq_part B0)).
   { rewrite before_char_app_no by exact Hi1. rewrite before_char_app_no by exact Hn1.
     f_equal. f_equal. simpl. f_equal.
     rewrite before_char_app_no by exact HA1. f_equal.
-    destruct B as [b|]; simpl.
-    - f_equal. rewrite before_char_app_no by exact HB.
-      destruct C; simpl; now rewrite append_nil_r.
+    unfold B0. destruct B as [b|]; simpl.
+    - reflexivity.
     - destruct C; simpl; reflexivity. }
+  unfold cdef, contains_def. rewrite E1. clear E1. clearbody B0. clear B. rename B0 into B.
   (* attribute_and_type *)
   assert (E2 : (if has_char "=" (ind ++ name ++ String ":" (A ++ eq_part B))
                 then before_char "=" (ind ++ name ++ String ":" (A ++ eq_part B))
@@ -402,7 +422,6 @@ Proof.
       rewrite before_char_app_no by exact HA3. now rewrite before_char_hit.
     - replace (has_char "=" (ind ++ name ++ String ":" (A ++ ""))) with false; [reflexivity|].
       symmetry. rewrite append_nil_r. rewrite !has_char_app. simpl. now rewrite Hi3, Hn3, HA3. }
-  unfold cdef, contains_def. rewrite E1.
   replace (has_char ":" (ind ++ name ++ String ":" (A ++ eq_part B))) with true.
   2:{ symmetry. rewrite !has_char_app. simpl. rewrite !orb_true_r. reflexivity. }
   cbn [negb]. rewrite E2.
@@ -430,16 +449,80 @@ Ltac nonempty := repeat (apply app_nonempty_r); first [assumption | simpl; discr
 Lemma type_ok_parts s : type_ok s = true ->
   has_char "#" s = false /\ has_char ":" s = false /\ has_char "=" s = false /\ edge_ok s = true /\ s <> "".
 Proof.
-  intros H. apply andb_true_iff in H as [H H3]. apply andb_true_iff in H as [H1 H2].
+  intros H. apply andb_true_iff in H as [H _].
+  apply andb_true_iff in H as [H H3]. apply andb_true_iff in H as [H1 H2].
   repeat split; try (apply (str_all_no_char type_char); [reflexivity | exact H1]);
     [exact H2 | now apply str_nonempty_ne].
 Qed.
 
-Lemma value_ok_parts s : value_ok s = true -> has_char "#" s = false /\ edge_ok s = true /\ s <> "".
+Lemma type_ok_closed s : type_ok s = true -> closed s = true.
+Proof. intros H. now apply andb_true_iff in H as [_ H]. Qed.
+
+Lemma value_ok_parts s : value_ok s = true -> closed s = true /\ edge_ok s = true /\ s <> "".
 Proof.
   intros H. apply andb_true_iff in H as [H H3]. apply andb_true_iff in H as [H1 H2].
-  repeat split; [apply (str_all_no_char value_char); [reflexivity | exact H1] | exact H2 | now apply str_nonempty_ne].
+  repeat split; [exact H3 | exact H1 | now apply str_nonempty_ne].
 Qed.
+
+(* ---------- _split_at_comment over concatenations ---------- *)
+Definition io : string -> string := inline_of split_step_gen.
+
+Lemma split_run_app step a : forall b q sk q' sk',
+  end_state step a q sk = Some (q', sk') ->
+  split_run step (a ++ b) q sk
+  = match split_run step b q' sk' with Some (x, y) => Some (a ++ x, y) | None => None end.
+Proof.
+  induction a as [|c r IH]; intros b q sk q' sk' H.
+  - simpl in H. injection H as <- <-. simpl. destruct (split_run step b q sk) as [[x y]|]; reflexivity.
+  - cbn [append split_run]. cbn [end_state] in H. destruct sk.
+    + rewrite (IH b q false q' sk' H). destruct (split_run step b q' sk') as [[x y]|]; reflexivity.
+    + destruct (step q c); [discriminate H | | |];
+        rewrite (IH b _ _ q' sk' H); destruct (split_run step b q' sk') as [[x y]|]; reflexivity.
+Qed.
+
+Lemma end_state_app step a : forall b q sk q' sk',
+  end_state step a q sk = Some (q', sk') -> end_state step (a ++ b) q sk = end_state step b q' sk'.
+Proof.
+  induction a as [|c r IH]; intros b q sk q' sk' H.
+  - simpl in H. now injection H as <- <-.
+  - cbn [append end_state]. cbn [end_state] in H. destruct sk; [now apply IH|].
+    destruct (step q c); [discriminate H | | |]; now apply IH.
+Qed.
+
+Lemma closed_end s : closed s = true -> end_state split_step_gen s None false = Some (None, false).
+Proof.
+  unfold closed. destruct (end_state split_step_gen s None false) as [[[q|] [|]]|]; try discriminate. reflexivity.
+Qed.
+
+Lemma closed_app a b : closed a = true -> closed b = true -> closed (a ++ b) = true.
+Proof.
+  intros Ha Hb. unfold closed. rewrite (end_state_app _ a b _ _ _ _ (closed_end a Ha)). exact Hb.
+Qed.
+
+Lemma io_app a b : closed a = true -> io (a ++ b) = io b.
+Proof.
+  intros Ha. unfold io, inline_of. rewrite (split_run_app _ a b _ _ _ _ (closed_end a Ha)).
+  destruct (split_run split_step_gen b None false) as [[x y]|]; reflexivity.
+Qed.
+
+(* characters that leave the scanner where it is, outside a string literal *)
+Lemma neutral_closed (p : ascii -> bool) s :
+  (forall c, p c = true -> split_step_gen None c = SKeep) -> str_all p s = true -> closed s = true.
+Proof.
+  intros Hp. unfold closed. induction s as [|c r IH]; [reflexivity|].
+  simpl str_all. intros H. apply andb_true_iff in H as [Hc Hr].
+  cbn [end_state]. rewrite (Hp c Hc). exact (IH Hr).
+Qed.
+
+Lemma space_neutral c : is_space c = true -> split_step_gen None c = SKeep.
+Proof. destruct c as [[] [] [] [] [] [] [] []]; vm_compute; intros H; try reflexivity; discriminate H. Qed.
+Lemma id_char_neutral c : is_id_char c = true -> split_step_gen None c = SKeep.
+Proof. destruct c as [[] [] [] [] [] [] [] []]; vm_compute; intros H; try reflexivity; discriminate H. Qed.
+
+Lemma spaces_closed s : str_all is_space s = true -> closed s = true.
+Proof. apply neutral_closed, space_neutral. Qed.
+Lemma ident_closed s : is_ident s = true -> closed s = true.
+Proof. intros H. apply (neutral_closed is_id_char); [apply id_char_neutral | now apply is_ident_all]. Qed.
 
 Section FieldLine.
   Variables (ind name ty : string) (v c : option string).
@@ -454,17 +537,14 @@ Section FieldLine.
   Lemma field_body_shape :
     exists A B C,
       body = name ++ String ":" (A ++ eq_part B ++ hash_part C)
-      /\ has_char "#" A = false /\ has_char ":" A = false /\ has_char "=" A = false
-      /\ match B with Some b => has_char "#" b = false | None => True end.
+      /\ has_char "#" A = false /\ has_char ":" A = false /\ has_char "=" A = false.
   Proof.
     destruct (type_ok_parts ty Hty) as [T1 [T2 [T3 _]]].
     unfold body. destruct v as [x|], c as [y|]; simpl value_text; simpl inline_text.
-    - destruct (value_ok_parts x Hv) as [V1 _].
-      exists (" " ++ ty ++ " "), (Some (" " ++ x ++ "  ")), (Some (" " ++ y)).
+    - exists (" " ++ ty ++ " "), (Some (" " ++ x ++ "  ")), (Some (" " ++ y)).
       split; [simpl; rewrite !append_assoc; reflexivity|].
       repeat split; nochar.
-    - destruct (value_ok_parts x Hv) as [V1 _].
-      exists (" " ++ ty ++ " "), (Some (" " ++ x)), None.
+    - exists (" " ++ ty ++ " "), (Some (" " ++ x)), None.
       split; [simpl; rewrite !append_assoc, ?append_nil_r; reflexivity|].
       repeat split; nochar.
     - exists (" " ++ ty ++ "  "), None, (Some (" " ++ y)).
@@ -500,39 +580,45 @@ Section FieldLine.
         * rewrite append_nil_r. rewrite (last_ok_app ": " ty Tn). now apply edge_ok_last.
   Qed.
 
+  (* the inline comment: the scanner passes over the declaration - string literals of the default included -
+     and stops at the '#' that starts the real comment, if there is one *)
+  Lemma field_line_inline : io (ind ++ body) = match c with Some y => y | None => "" end.
+  Proof.
+    unfold body.
+    assert (Vc : closed (value_text v) = true).
+    { destruct v as [x|]; [|reflexivity]. destruct (value_ok_parts x Hv) as [X1 _].
+      change (value_text (Some x)) with (" = " ++ x). now apply closed_app. }
+    rewrite io_app by (now apply spaces_closed).
+    rewrite io_app by (now apply ident_closed).
+    rewrite io_app by reflexivity.
+    rewrite io_app by (now apply type_ok_closed).
+    rewrite io_app by exact Vc.
+    destruct c as [y|]; [|reflexivity].
+    destruct (mark_ok_parts y Hc) as [_ [Ye _]].
+    change (io (inline_text (Some y))) with (strip (" " ++ y)).
+    apply (strip_pad_l " " y eq_refl Ye).
+  Qed.
+
   Lemma field_line_view :
     let line := ind ++ body in
     v_isdef (vw line) = true /\ v_defname (vw line) = Some name /\ v_empty (vw line) = false
-    /\ v_comment (vw line) = match c with Some y => y | None => "" end.
+    /\ v_inline (vw line) = match c with Some y => y | None => "" end.
   Proof.
     intros line. unfold line.
-    destruct field_body_shape as [A [B [C [Eb [A1 [A2 [A3 HB]]]]]]].
+    destruct field_body_shape as [A [B [C [Eb [A1 [A2 A3]]]]]].
     assert (Hstrip : strip (ind ++ body) = body) by (apply strip_pad_l; [exact Hind | apply field_body_edge_ok]).
     assert (Hne : body <> "").
     { unfold body. intros E. apply (is_ident_nonempty name Hname). destruct name; [reflexivity | discriminate E]. }
-    unfold vw, view; cbn [v_isdef v_defname v_empty v_comment].
-    repeat split.
-    - rewrite Eb. now apply cdef_general.
-    - unfold def_name. rewrite Hstrip.
+    split; [|split; [|split]].
+    - unfold vw, view; cbn [v_isdef]. rewrite Eb. now apply cdef_general.
+    - unfold vw, view; cbn [v_defname]. unfold def_name. rewrite Hstrip.
       replace (contains_def "#" ":" "=" body) with true.
       2:{ symmetry. rewrite Eb. apply (cdef_general "" name A B C); auto. }
       cbn [negb]. rewrite Eb.
       rewrite before_char_app_no by (now apply is_ident_no). rewrite before_char_hit, append_nil_r.
       rewrite (strip_edge_ok name (is_ident_edge_ok name Hname)), Hname. reflexivity.
-    - rewrite Hstrip. destruct body; [congruence | reflexivity].
-    - unfold comment_of, body.
-      destruct (type_ok_parts ty Hty) as [T1 _].
-      assert (V1 : has_char "#" (value_text v) = false).
-      { destruct v as [x|]; simpl value_text; [|reflexivity].
-        destruct (value_ok_parts x Hv) as [X1 _]. nochar. }
-      rewrite after_char_app_no by (now apply spaces_no).
-      rewrite after_char_app_no by (now apply is_ident_no).
-      rewrite after_char_app_no by reflexivity.
-      rewrite after_char_app_no by exact T1.
-      rewrite after_char_app_no by exact V1.
-      destruct c as [y|]; simpl inline_text; [|reflexivity].
-      destruct (mark_ok_parts y Hc) as [_ [Ye _]].
-      simpl. apply (strip_pad_l " " y eq_refl Ye).
+    - unfold vw, view; cbn [v_empty]. rewrite Hstrip. destruct body; [congruence | reflexivity].
+    - exact field_line_inline.
   Qed.
 End FieldLine.
 
@@ -718,7 +804,7 @@ Section Groups.
   Lemma fline_view g : fld_ok g = true ->
     let v := vw (field_line ind g) in
     v_isdef v = true /\ v_defname v = Some (f_name g) /\ v_empty v = false
-    /\ v_comment v = match f_inline g with Some y => y | None => "" end.
+    /\ v_inline v = match f_inline g with Some y => y | None => "" end.
   Proof.
     intros H. destruct (fld_ok_parts g H) as [H1 [H2 [H3 [_ [H5 _]]]]].
     apply (field_line_view ind (f_name g) (f_type g) (f_value g) (f_inline g)); assumption.
@@ -1070,7 +1156,7 @@ Theorem scan_class_render k L f :
   scan_class_gen k f = scan_of (docs L f, last_assoc f (k_args k) "").
 Proof.
   intros Hwf Hc. unfold scan_class_gen, scan_class. rewrite Hc, fix_entry_on.
-  change (scan_lines HASH COLON EQUALS TRIPLE_S TRIPLE_D FIX_WALK (render L) f) with (scan_lines_gen (render L) f).
+  change (scan_lines HASH COLON EQUALS TRIPLE_S TRIPLE_D split_step_gen FIX_WALK (render L) f) with (scan_lines_gen (render L) f).
   rewrite (scan_render L f Hwf). unfold scan_of. cbn [fst snd andb]. destruct (docs L f) as [d|]; reflexivity.
 Qed.
 
